@@ -3,6 +3,7 @@ package codec
 import (
 	"bytes"
 	"fmt"
+	"math"
 	"strconv"
 
 	"github.com/pentops/j5/lib/j5reflect"
@@ -118,6 +119,19 @@ func (enc *encoder) addBool(val bool) {
 }
 
 func (enc *encoder) addFloat(val float64, bitSize int) {
+	// JSON has no literal for non-finite numbers: use the strings of the
+	// protobuf JSON mapping, which the decoder's string arm reads back.
+	switch {
+	case math.IsNaN(val):
+		enc.addQuoted([]byte("NaN"))
+		return
+	case math.IsInf(val, 1):
+		enc.addQuoted([]byte("Infinity"))
+		return
+	case math.IsInf(val, -1):
+		enc.addQuoted([]byte("-Infinity"))
+		return
+	}
 	str := strconv.FormatFloat(val, 'g', -1, bitSize)
 	enc.add([]byte(str))
 }
